@@ -37,7 +37,7 @@ def observations(raw, bp):
     after any handler that ran inside it), every before/after pair of a handler"""
     out = []; word = {}; op = {}
     for l in raw.splitlines():
-        p = l.split()
+        p = l.replace(' (fwd)', '').split()
         if len(p) < 3 or not p[0].isdigit(): continue
         t, k = p[0], p[1]
         if k == 'call' and p[2] in ('lock', 'unlock'): op.setdefault(t, []).append({'kind': p[2], 'g': 0, 'cands': {word.get(t, 0)}})
